@@ -212,6 +212,10 @@ def _saa_head(vc, v, entering):
         vc.stash("saa.element", (v["entry"], v["callback"], v["handle"]))
 
 
+def _sa_modifies(vc, v):
+    return [v["self"].store[v["addr"]]]
+
+
 def _sa_head(vc, v, entering):
     vc.stash("sa.entering", entering)
     if entering:
@@ -220,7 +224,10 @@ def _sa_head(vc, v, entering):
 
 LOOPS = {
     ("someip.sd.TimedStore.stop_all_for_address", 0): {"head": _saa_head},
-    ("someip.sd.TimedStore.stop_all", 0): {"head": _sa_head},
+    # frame: an iteration empties the dict of its own address only (the keys of a dict are
+    # pairwise different, so that dict is still as it was when its iteration starts); any
+    # other change to the store is reported by the frame check
+    ("someip.sd.TimedStore.stop_all", 0): {"head": _sa_head, "modifies": _sa_modifies},
 }
 
 
@@ -279,6 +286,9 @@ def ob_stop_all(vc):
         vc.check_eq(w.events, [], "stop_all.nothing_reported_beyond_the_entries")
         a = vc.stashed("sa.addr")
         vc.check(not w.present(a, w.k0) and not w.present(a, w.kx), "stop_all.address_emptied")
+        # frame of one iteration: the entries of every other address are still there for
+        # their own iteration (otherwise they would be dropped without being reported)
+        w.check_untouched("stop_all.iteration", [s_ for s_ in w.slots if s_[0] == a])
 
 
 STORE_OBLIGATIONS = [ob_refresh, ob_refresh_rejected, ob_stop, ob_expired, ob_stop_all_for_address, ob_stop_all]
